@@ -39,6 +39,8 @@ CLAIMED = {
          "Lean 4 theorem (layout against the RFC 6891 spec, deviation proved explicitly) + differential correspondence", "9/C09"),
  "C10": ("schema_matches_rfc (the model's 38-row layout table equals the table written from the RFCs with IANA codes), rfc_encoding (serialising any in-range field tuple yields the RFC reference encoding byte for byte), rfc_parse / rfc_parse_record (parsing that encoding yields the values), rfc_ipseckey, reject rules (LOC version, unordered SVCB/NSEC keys, inner length overruns are .err, never panic) proved; the per-type Rust code is tied to the table by the correspondence.",
          "Lean 4 theorem (equality with a declarative RFC schema + reference encoder) + differential correspondence", "9/C10"),
+ "C11": ("parse_image_wf_core (everything the parser returns satisfies the well-formedness C02/C03 need, clause by clause), reserialise_stable and reparse_idempotent proved under the explicit hypothesis PlainFits (the re-encoded RDATA fits 16 bits), which is proved for every input of at most 65304 bytes or with every RDLENGTH at most 65281; for the remaining inputs the proof attempt produced a genuine counterexample (known finding rdata-expands-past-65535), hence partial.",
+         "Lean 4 theorem (parser image satisfies the round-trip precondition) + differential correspondence", "9/C11"),
 }
 PENDING = {f"C{n:02d}": "check not built yet (implementation of DESIGN.md in progress); will be claimed at level proof" for n in range(1, 21)}
 try:
